@@ -760,6 +760,12 @@ class Engine:
             if isinstance(o, Obj):
                 gi = self.find_method(o.cls, "__getitem__")
                 return self.call_repo(gi, [v, i], {}, st)
+            if isinstance(i.shape, StrS) and z3.is_string_value(i.d) and isinstance(o, dict):
+                try:
+                    return self.lift(o[i.d.as_string()])
+                except KeyError:
+                    self.raise_side(st, "KeyError", z3.BoolVal(True))
+                    raise DeadPath()
             if isinstance(i.shape, ConcS) or V.concrete_int(self.as_sym(i).d) is not None \
                     if isinstance(self.as_sym(i).shape, IntS) else isinstance(i.shape, ConcS):
                 key = i.d if isinstance(i.shape, ConcS) else V.concrete_int(self.as_sym(i).d)
@@ -836,6 +842,8 @@ class Engine:
             return res
         k = i.d
         if k in o.items:
+            if k in o.present:
+                self.raise_side(st, "KeyError", z3.Not(o.present[k]))
             return o.items[k]
         if o.default is not None:
             # defaultdict: reading an absent key inserts (callers doing m[k].append() write back)
